@@ -33,8 +33,11 @@ def history_obs(ctx):
                 for (pd, tag) in variants:
                     d = {"FUN": fun, "M1": m1, "M2": m2, "AVX": avx}
                     d.update(pd)
+                    prm = {"out_a": "VF_OUT", "out_b": "VF_OUT2", "n": 2 * m1, "nin": 12 * max(m1, m2), "float_inputs": fun not in (6, 8, 9), "marker": "vf_marker"}
+                    if "SAMEDIM_OTHER_PARAMS" in pd:
+                        prm["more_pairs"] = [["VF_OUT3", "VF_OUT4"]]  # the same-dimension / other-parameters call against a fresh table for ITS parameters
                     obs.append(AlgOb("history/%s/m1=%d/m2=%d/avx=%d%s" % (FUNN[fun], m1, m2, avx, tag), "simple.c", "h_simple", "vf.alg.uf:check_equal",
-                                     params={"out_a": "VF_OUT", "out_b": "VF_OUT2", "n": 2 * m1, "nin": 12 * max(m1, m2), "float_inputs": fun not in (6, 8, 9), "marker": "vf_marker"},
+                                     params=prm,
                                      defs=d, libs=SLIBS, unwind=200, family=FUNN[fun], timeout=600,
                                      desc="f(M1,P1); f(M2,P2); [f(M1,P2);] f(M1,P1) through the caching entry point vs the same operation on a freshly "
                                           "initialised table: every output of the last call is the same uninterpreted term (hence the same bits)"))
@@ -74,6 +77,10 @@ def obligations(ctx):
     for offs in (0, 1, 3):
         for (api, nn, mt) in ((1, 8, 0), (2, 8, 0), (5, 8, 0), (9, 8, 0), (1, 4, 1)):
             obs.append(ag.api_ob(t, api, nn, mt, 1, 3, 1, nrows=2, ncols=2, offs=offs, tag="offset/"))
+    # the inverse DFT writing over its own input (FFT64): output rows beyond the input size exactly zero whatever the buffer held before
+    for (rsz, asz) in ((3, 1), (2, 2), (1, 3), (2, 0)):
+        for (nn, avx) in ((4, 0), (8, 1)):
+            obs.append(ag.api_ob(t, 2, nn, 0, avx, rsz, asz, inplace=True, tag="idft-inplace/"))
     # values, not only extents: the product pipelines with their scratch buffers 8 / 24 / 56 bytes past a 64-byte boundary return the same exact polynomial
     # (same analysis as C01 / C02), N = 16 so that several reim4 blocks are processed
     from vf.props import c01
